@@ -253,7 +253,7 @@ def cases(draw, opts, nperm, cyclic=False):
     g = H.Gen(draw, opts)
     n = draw(st.integers(opts.min_ops, opts.max_ops))
     for _ in range(n):
-        if not g.step(kinds=("sete", "setv", "inplace", "unreg", "regft", "regknob", "unregtask", "setc")):
+        if not g.step(kinds=("sete", "setv", "inplace", "unreg", "regft", "regknob", "unregtask", "setc") + (("maint",) if opts.maint else ())):
             break
     cycles = []
     if cyclic and not g.raised and g.model.defs:
@@ -297,7 +297,8 @@ def cases(draw, opts, nperm, cyclic=False):
 def run(ctx):
     n = ctx.n(200, 1500)
     nperm = 3 if ctx.quick else 5
-    opts = H.Opts(max_ops=25, maint=False, allow_raise=False)
+    # maintenance calls (verify / cleanup / refresh / clone) in between: they prune and rebuild the indices the update reads
+    opts = H.Opts(max_ops=25, maint=True, allow_raise=False)
 
     def body(case):
         if not case["ops"] or not case.get("observed"):
@@ -310,6 +311,11 @@ def run(ctx):
     drive(ctx, cases(flat, nperm), body, max(30, n // 4), salt=2, label="C02 flat")
     cyc = H.Opts(max_ops=12, maint=False, allow_raise=False, ftasks=False, knobs=False, risky_ops=False)
     drive(ctx, cases(cyc, nperm, cyclic=True), body, max(30, n // 4), salt=3, label="C02 cyclic")
+    # sparse managers: few definitions, many pure side-effect tasks (no targets) and maintenance calls - a location whose
+    # ONLY dependant is a task that writes nothing
+    sparse = H.Opts(min_ops=2, max_ops=8, maint=True, allow_raise=False, ft_sink_one_in=2,
+                    weights={"regft": 30, "maint": 25, "setv": 15, "sete": 10, "unregtask": 6, "unreg": 4, "regknob": 4})
+    drive(ctx, cases(sparse, nperm), body, max(30, n // 4), salt=5, label="C02 sparse")
     k1o = H.Opts(max_ops=15, maint=False, allow_raise=False, avoid_k1=False)
     drive(ctx, cases(k1o, nperm), body, max(20, n // 6), salt=4, label="C02 K1-allowed")
 
